@@ -685,7 +685,7 @@ func init() {
 	core.Register(&core.Check{
 		Prop: "C13", Level: "exploration",
 		Rule: "seq cases: one goroutine issues 50-600 Begin/Done calls (repeated indices, indices below the current mark, out-of-order Done, bursts with >100 marks in flight, Done-without-Begin as the very first mark); marks are processed in call order so the logical mark after each call is known from a reference model: every sampled DoneUntil must be <= it, never decrease, and reach it at quiescent points without further calls; conc cases: 2-6 goroutines x 25 calls, Done only after the own Begin returned, history of Begin/Done/DoneUntil checked with porcupine (a read is legal iff <= the logical mark at its linearization point), monotone per observer, catches up at the end; flood cases: 2000-22000 Begin/Done pairs in a tight loop (far more than the channel buffer), then the mark must reach the last index; wait cases: 5-25 indices, waiters registered before/after their index is reached, several on one index, on never-reached indices with cancellation and deadline; non-trivial = script with a repeated index and an out-of-order Done / history with >=2 goroutines / >=2 waiters returned; distinct by call sequence hash or seed",
-		Gen: genC13, Run: runC13, SelfTest: c13SelfTest, BatchSize: 60, GoMaxProcs: 4, Parallel: 8,
+		Gen:  genC13, Run: runC13, SelfTest: c13SelfTest, BatchSize: 60, GoMaxProcs: 4, Parallel: 8,
 		MinNonTrivial: map[string]int{"quick": 300, "thorough": 10000},
 		Assumptions: []string{"'once every begun index up to t is finished DoneUntil reaches t' is judged for t that was itself begun", "Done-without-Begin is issued only as the very first mark (the recovery usage)",
 			"catch-up is decided as: not reached 20 s after the last call while no call is outstanding (normal latency: microseconds); the goroutine dump is attached"},
